@@ -149,8 +149,28 @@ def run(ctx):
         # the `--` edge consumes the token without appending it only when the mode was off
         # ---- R12.3
         lst = pl.positionals
-        lim_eq = ("a", "(%s.size() == this.allowed_positionals_)" % lst)
-        lim_lt = ("a", "(%s.size() < this.allowed_positionals_)" % lst)
+        if pl.positionals_member:
+            # a list that outlives the call must be emptied on every path before the first token is looked at
+            def clears(e, fld=pl.positionals_member):
+                x = e.get("expr")
+                if x is None:
+                    return False
+                for n0 in walk(x, into_sc=False):
+                    if n0.get("k") == "call" and short(n0.get("name") or "") == "clear" and n0.get("this") is not None and fmt(ir.unwrap(n0["this"])) == short(fld):
+                        return True
+                    if n0.get("k") in ("bin", "call") and (n0.get("op") == "=") and fmt(ir.unwrap(n0.get("l") if n0.get("k") == "bin" else n0.get("this"))) == short(fld):
+                        from .common import is_empty_temp
+                        rhs = n0.get("r") if n0.get("k") == "bin" else (n0.get("args") or [None])[0]
+                        if rhs is not None and is_empty_temp(rhs):
+                            return True
+                return False
+            okc, pth = cfg.must_precede(fn, clears, lambda e, h=pl.head: False) if False else (None, None)
+            reach = _head_reachable_without(fn, pl.head, clears)
+            ctx.check(not reach, "R12.3", fn, "member-list-emptied-before-loop",
+                      "the positional list is the parser member `%s` and the token loop can be reached without emptying it: positionals collected by an earlier parse that ended in an error "
+                      "are still in it - they are prepended to the next result and count against the accepted number" % short(pl.positionals_member), fn)
+        lim_eq = ("a", "(%s.size() == this.allowed_positionals_)" % pl.positionals_atom)
+        lim_lt = ("a", "(%s.size() < this.allowed_positionals_)" % pl.positionals_atom)
         nfeasible = 0
         for (bid, i, e, n, _) in pl.appends:
             if bid not in pl.IN:
@@ -296,6 +316,61 @@ def run(ctx):
                         "%s changes %s (through %s): %s, so a parser configured with one setting silently gets another accepted count / mode"
                         % (short(f.qual), short(fq), ", ".join(sorted(short(g.qual) for g in writers)), "only %s() may set it" % setter), f)
         ctx.need("R12.7", "setters of the positional settings", nset, 2)
+    # ---- R12.8: a moved parser carries every setting of its source (move construction and move assignment transfer every data member)
+    ctx.rule("R12.8", "parser's move operations transfer every data member (accepted count and greedy switch included)")
+    if pcls is not None:
+        sp = pcls.get("special", {})
+        pfields = [fl for fl in pcls["fields"] if not fl.get("static")]
+        for op in ("move_ctor", "move_assign"):
+            d0 = sp.get(op)
+            if d0 is None or d0.get("deleted"):
+                continue
+            if not d0.get("user_provided"):
+                ctx.ok("R12.8", NS + "parser", op + "-member-wise", "compiler-generated (member-wise)", "%s:%d" % (pcls["file"], pcls["line"]))
+                continue
+            mf = prog.fn(d0["id"])
+            if mf is None or not mf.has_cfg:
+                ctx.broken("R12.8", NS + "parser", op + "-transfers", "user-provided %s has no analysable body" % op, "-")
+                continue
+            src = mf.params[0]["name"] if mf.params else "other"
+            # members written from the source's member of the same name: directly, in the initialiser list, by swap with a
+            # temporary built from the source (A0 has inlined helpers the tables do not know)
+            taken = set()
+            tmp_from_src = set()
+            for bid, i, e in mf.all_elems():
+                x = e.get("expr")
+                if x is None:
+                    continue
+                if e["kind"] == "init" and e.get("field") and re.search(r"\b%s\.%s\b" % (re.escape(src), re.escape(short(e["field"]))), fmt(x)):
+                    taken.add(short(e["field"]))
+                if e["kind"] == "init" and (e.get("delegating") or e.get("base")) and re.search(r"\bmove\(%s\)" % re.escape(src), fmt(x)):
+                    taken |= {fl["name"] for fl in pfields}
+                xs = ir.unwrap(x)
+                if isinstance(xs, dict) and xs.get("k") == "decl":
+                    for v in xs.get("vars", []):
+                        if "parser" in (v.get("type") or "") and v.get("init") is not None and re.search(r"\bmove\(%s\)" % re.escape(src), fmt(v["init"])):
+                            tmp_from_src.add(v["name"])
+                for n in walk(x, into_sc=False):
+                    if n.get("k") == "bin" and n["op"] == "=":
+                        l, r = fmt(ir.unwrap(n["l"])), fmt(ir.unwrap(n["r"]))
+                        for fl in pfields:
+                            if l == fl["name"] and re.search(r"\b(%s)\.%s\b" % ("|".join(map(re.escape, [src] + sorted(tmp_from_src))), re.escape(fl["name"])), r):
+                                taken.add(fl["name"])
+                    if n.get("k") == "call" and (n.get("op") == "=" ) and n.get("this") is not None and n.get("args"):
+                        l, r = fmt(ir.unwrap(n["this"])), fmt(ir.unwrap(n["args"][0]))
+                        for fl in pfields:
+                            if l == fl["name"] and re.search(r"\b(%s)\.%s\b" % ("|".join(map(re.escape, [src] + sorted(tmp_from_src))), re.escape(fl["name"])), r):
+                                taken.add(fl["name"])
+                    if n.get("k") == "call" and short(n.get("name") or "") == "swap" and len(n.get("args", [])) == 2:
+                        a, b = fmt(ir.unwrap(n["args"][0])), fmt(ir.unwrap(n["args"][1]))
+                        for fl in pfields:
+                            for own, oth in ((a, b), (b, a)):
+                                if own == fl["name"] and re.fullmatch(r"(%s)\.%s" % ("|".join(map(re.escape, [src] + sorted(tmp_from_src))), re.escape(fl["name"])), oth):
+                                    taken.add(fl["name"])
+            for fl in pfields:
+                ctx.check(fl["name"] in taken, "R12.8", mf, "%s-transfers:%s" % (op, fl["name"]),
+                          "the %s of parser does not take `%s` from the source: the target keeps its own value, so a configuration that reaches its object by a move parses with a different "
+                          "setting than it was given" % (op.replace("_", " "), fl["name"]), mf)
     # ---- R12.6
     pa = prog.fn(PARSE_ARGV)
     if ctx.anchor("R12.6", PARSE_ARGV, pa is not None and pa.has_cfg):
@@ -576,3 +651,23 @@ def _index_by_sign(g, p, ats):
         if r not in uniq:
             uniq.append(r)
     return uniq
+
+
+def _head_reachable_without(fn, head, pred):
+    """can the loop head be reached from the entry without passing an element satisfying pred?"""
+    seen = set()
+    st = [fn.entry]
+    while st:
+        b = st.pop()
+        if b in seen:
+            continue
+        seen.add(b)
+        if b == head:
+            return True
+        if any(pred(e) for e in fn.elems(b)):
+            continue
+        if fn.is_noreturn(b):
+            continue
+        for to, _ in fn.succs(b):
+            st.append(to)
+    return False
